@@ -606,9 +606,10 @@ package core
 // Word motions (C06: movements never edit)
 
 //@ fntype Tokenizer
-//@   assumed the three tokenizers of Line (Tokenize, TokenizeSpace, TokenizeBlock) only read the line; when they return tokens the index designates one of them
+//@   assumed the three tokenizers of Line (Tokenize, TokenizeSpace, TokenizeBlock) only read the line; when they return tokens the index designates one of them; the position inside the token is never negative
 //@   pure
 //@   ensures len(split) > 0 ==> 0 <= index && index < len(split)
+//@   ensures newPos >= 0
 
 //@ func (*Line).Forward
 //@   props C06 C01
@@ -623,10 +624,11 @@ package core
 //@   pure
 
 //@ func (*Line).Backward
-//@   props C06 C01
+//@   props C06 C01 C16
 //@   terminates
 //@   requires l != nil && tokenizer != nil
 //@   pure
+//@   ensures [never-forward] result <= 0
 
 // C01: select-a-shell-word terminates (it did not on a word followed by a newline; fix: commit 8db6135).
 // Only termination is claimed here: both expansion loops carry a variant.  Index safety of the positions
